@@ -130,6 +130,8 @@ theorem lit (n : Nat) : (OfNat.ofNat n : Int) = ((OfNat.ofNat n : Nat) : Int) :=
 @[simp] theorem shr_lit (n : Nat) (k : Int) :
     shr (no_index (OfNat.ofNat n)) k = (((OfNat.ofNat n : Nat) >>> k.toNat : Nat) : Int) := rfl
 
+@[simp] theorem toNat_lit (n : Nat) : Int.toNat (no_index (OfNat.ofNat n)) = OfNat.ofNat n := rfl
+
 /-- `~s & m` for non-negative `s`, `m`: the bits of `m` not in `s` -/
 @[simp] theorem band_inv_natCast (s m : Nat) : band (inv (s : Int)) (m : Int) = ((m - (s &&& m) : Nat) : Int) := by
   have : inv (s : Int) = Int.negSucc s := by unfold inv; rw [Int.negSucc_eq]; omega
